@@ -1,9 +1,10 @@
 """C03 — timestamps <-> epoch seconds (tracklib/core/obs_time.py).
 
-Two models are driven: the integer model (commands read/abs/cmp/add; what T1-T6 are about) and the generic model
+Three models are driven: the model of the `zone` label and of the objects (command prog: programs of statements over a store of
+ObsTime objects, run on real objects and in Lean; what Z1-Z12 are about), and the two models of the conversions: the integer model (commands read/abs/cmp/add; what T1-T6 are about) and the generic model
 of the float path instantiated at IEEE doubles (readf/absf/rtf/addf/cmpf/subf; what T7-T14 are about in exact
-arithmetic). The correspondence with the second one is exact (fields and bit patterns); the first one is compared
-up to the documented "one millisecond low" of the float code. The oracle (`spec`) uses only the calendar of the
+arithmetic). The correspondence with the float-path model and with the program model (itself at IEEE doubles) is exact (fields and
+bit patterns); the integer model is compared up to the documented "one millisecond low" of the float code. The oracle (`spec`) uses only the calendar of the
 standard library and exact rationals."""
 import calendar, datetime, math
 from fractions import Fraction
@@ -168,7 +169,11 @@ class P(Prop):
     partial = []
     open_statements = ["IEEE rounding is outside the theorems (ordered field, exact int()): the two roundings of toAbsTime() (ms/1000.0 and the sum) make a stamp with a non-zero "
                        "millisecond read back one millisecond low (57 -> 56), and float(toAbsTime()+nb) is rounded to the ~2e-7..2e-6 s grid of epoch-scale doubles; both are within the "
-                       "property's millisecond and are covered by the bit-exact correspondence of the same definitions instantiated at Float, not by a theorem"]
+                       "property's millisecond and are covered by the bit-exact correspondence of the same definitions instantiated at Float, not by a theorem",
+                       "object identity is a statement about the interpreter of programs (every call that returns a stamp appends a new object): that the Python calls behave like that "
+                       "interpreter is the correspondence of the `prog` stream (outputs, final state of every object, `is`), not a theorem about CPython",
+                       "convertToZone / Track.convertToTimeZone / Track.addSeconds theorems are for exact arithmetic and targets not before 1970; before 1970 (negative fields) and IEEE rounding: correspondence at Float only. "
+                       "TrackCollection.convertToTimeZone (calls Track.convertToZone, which does not exist) and Track.roundTimestamps (calls ObsTime.round, which does not exist) raise AttributeError on every input: not modelled, not generated"]
     modelled = ("tracklib/core/obs_time.py: ObsTime.readUnixTime on a float argument, operation for operation (readUnixG: year loop on `elapsed - sec` with the integer accumulator, "
                 "month loop, int(e/86400), int(e/3600), int(e/60), int(e), ms = int(frac*1000)) and on integers (readUnixSec/readUnixMs); toAbsTime (integer `seconds`, then "
                 "float(seconds) + ms/1000.0); addSec/addMin/addHour/addDay with int, fractional and negative amounts; __sub__; __eq__/__ne__/__lt__/__gt__/__le__/__ge__; "
@@ -321,7 +326,7 @@ class P(Prop):
         x = rng.choice(pool)
         form = "f"
         if x == math.floor(x) and rng.random() < 0.5:
-            form = "i"
+            form = rng.choice(["i", "i", "i", "ni"])
         elif rng.random() < 0.15:
             form = "np"
         return ["read", fbits(x), form]
@@ -662,6 +667,9 @@ class P(Prop):
                     elif op[2] == "np":
                         import numpy
                         x = numpy.float64(x)
+                    elif op[2] == "ni":
+                        import numpy
+                        x = numpy.int64(int(x))
                     pre.append([])
                     store.append(T.readUnixTime(x))
                     outs.append(self.snap_abs(store[-1]))
@@ -1052,7 +1060,7 @@ class P(Prop):
             elif k == "read":
                 x = bitsf(op[1])
                 if x >= 0:
-                    m = self.check_read(int(x) if op[2] == "i" else x, {"f": o["o"][:7], "abs": o["abs"]})
+                    m = self.check_read(int(x) if op[2] in ("i", "ni") else x, {"f": o["o"][:7], "abs": o["abs"]})
             elif k == "rt":
                 if wf[0]:
                     f = pre[0][:7]
@@ -1110,6 +1118,31 @@ class P(Prop):
                         m = "%s (zone %s) - %s (zone %s) = %r, the seconds differ by %s" % (pre[0][:7], pre[0][7], pre[1][:7], pre[1][7], d, (a - b) / 1000.0)
             if m:
                 return m + said(i)
+        # a stamp denotes its instant for as long as nobody assigns to it: at the end of the program every attribute the
+        # program did not assign (directly, or the zone through Track.setTimeZone) still has the value it had when the
+        # object was returned
+        lay = prog_layout(ops)
+        created, written, track = {}, {}, []
+        for (a, c), op, o in zip(lay, ops, out["outs"]):
+            if op[0] in OBJ_OPS:
+                created[a] = (o["o"], op)
+            elif op[0] in ("tconv", "tadd"):
+                for j, r in enumerate(o["l"]):
+                    created[a + j] = (r["o"], op)
+                track = list(range(a, a + c))
+            elif op[0] == "trk":
+                track = list(op[1])
+            elif op[0] == "set":
+                written.setdefault(op[1], set()).add(op[2])
+            elif op[0] == "tset":
+                for sl in track:
+                    written.setdefault(sl, set()).add(7)
+        for sl, (was, op) in sorted(created.items()):
+            now = out["store"][sl]
+            for x in range(8):
+                if x not in written.get(sl, ()) and now[x] != was[x]:
+                    return "the stamp returned by %s was %s (zone %s); after the rest of the program, which never assigns to its %s, it is %s (zone %s) (program %s)" % (
+                        op, was[:7], was[7], ATTRS[x], now[:7], now[7], json_short(ops))
         return None
 
     def spec(self, case, out):
@@ -1220,10 +1253,11 @@ class P(Prop):
                 return "%s gives %s, expected %s" % (what, got, oracle_fields(int(want * 1000)))
             return self.check_abs(got, out["res"]["abs"], "the result")
         if k == "ctor":
-            # The property speaks about conversions and comparisons, not about parsing, defaults or aliasing: what
-            # ObsTime(str)/readTimestamp parse, what ObsTime() is and that copy() is a distinct object are checked
-            # against the model (correspondence). The oracle only asks what the statement asks of the stamps built
-            # this way: their seconds agree with the calendar, and the copy compares as its seconds do.
+            # The property speaks about conversions and comparisons, not about parsing or defaults: what
+            # ObsTime(str)/readTimestamp parse and what ObsTime() is are checked against the model (correspondence).
+            # The oracle only asks what the statement asks of the stamps built this way: their seconds agree with the
+            # calendar, and the copy compares as its seconds do. (Identity of objects and what a later call or assignment
+            # does to an earlier result: the `prog` stream.)
             for name, o in (("ObsTime(%r)" % out["str"], out["ctor"]), ("ObsTime()", out["default"])):
                 if wellformed(o["f"]):
                     m = self.check_abs(o["f"], o["abs"], name + " =")
